@@ -119,8 +119,10 @@ def extract_lazy(cls, lazy_attr, init_name="_lazy_init"):
             if isinstance(s, ast.Delete) and len(s.targets) == 1 and _is_self_attr(s.targets[0], lazy_attr, selfi):
                 P.emit("del", lazy_attr, ln)
                 continue
-            if isinstance(s, ast.Expr) and isinstance(s.value, ast.Call) and "super()" in ast.unparse(s.value.func) \
-                    and "__init__" in ast.unparse(s.value.func):
+            if isinstance(s, ast.Expr) and isinstance(s.value, ast.Call) and ast.unparse(s.value.func).endswith(".__init__") \
+                    and ("super()" in ast.unparse(s.value.func) or
+                         (s.value.args and isinstance(s.value.args[0], ast.Name) and s.value.args[0].id == selfi)):
+                # the real constructor, called through super() or explicitly on a base class with self
                 P.emit("needobj", "v", ln)
                 P.emit("init_begin", ln)
                 P.emit("init_end", ln)
